@@ -971,6 +971,7 @@ func c15GenSchema(t *rapid.T) *c15Schema {
 	valueOnly := rapid.IntRange(0, 7).Draw(t, "valueOnlyFields") == 0
 	kinds := make([]*c15Kind, n)
 	nullable := make([]bool, n)
+	nullMode := rapid.IntRange(0, 9).Draw(t, "nullMode")
 	for i := range kinds {
 		for {
 			kinds[i] = rapid.SampledFrom(c15Kinds).Draw(t, fmt.Sprintf("kind%d", i))
@@ -978,7 +979,13 @@ func c15GenSchema(t *rapid.T) *c15Schema {
 				break
 			}
 		}
-		nullable[i] = rapid.IntRange(0, 9).Draw(t, fmt.Sprintf("nullable%d", i)) < 6
+		switch nullMode {
+		case 0, 1: // every field NOT NULL: the longest fixed-access prefix the kinds allow
+		case 2:
+			nullable[i] = true
+		default:
+			nullable[i] = rapid.Bool().Draw(t, fmt.Sprintf("nullable%d", i))
+		}
 	}
 	return newC15Schema(kinds, nullable)
 }
@@ -1334,5 +1341,5 @@ func TestVerif_C15(t *testing.T) {
 		"extended (handler-based) encodings are not generated: they need a doltgres type handler",
 		"the harness re-parses the tuple layout documented on val.Tuple but does not assert the byte encoding of individual field values")
 	defer rec.Write(t)
-	vh.Check(t, "tuples", 30000, 90000, func(rt *rapid.T) { c15TuplesCase(rt, rec) })
+	vh.Check(t, "tuples", 150000, 400000, func(rt *rapid.T) { c15TuplesCase(rt, rec) })
 }
